@@ -14,4 +14,5 @@ git -C /repo checkout -- .
 rm -rf evidence; cp -r .cache/evidence.bak evidence 2>/dev/null
 python3 tools/gen_consts.py /repo >/dev/null
 python3 tools/rs2lean.py /repo >/dev/null
+python3 tools/ser2lean.py /repo >/dev/null
 (cd lean && lake build driver >/dev/null 2>&1)
